@@ -113,6 +113,32 @@ CHECKS = {
    design_ref="DESIGN.md §7 C13",
    technique="Lean 4 theorems over Rat model of calculate_velocity and row placement + differential check",
    note=BASE_NOTE),
+ "C04": dict(
+   category="proof",
+   text="Theorems: np.gradient stencil under reversal/scaling/shift; the curvature ingredients negate under reversal, scale by s^2 and vanish "
+        "identically on straight polylines of any spacing (so the turning estimate flips sign, is scale free and is zero for straight interfaces); "
+        "a row is +-(p_a - p_b); joint flip of interface direction and defining cell orientation, and swapping the two cells, negate both sides "
+        "of the equation; bordered normal equations (and the multiplier-free form: constant gradient + zero sum, with slack) give the zero-sum "
+        "least-squares minimiser; linearity in the tensions; connected interface graph => unique; zero re-insertion puts 0 exactly at the dropped "
+        "cells and keeps the others in order. Per run: curvature and the pressure system compared with the model (rows exactly), the solution "
+        "certified in exact arithmetic, rows oriented against the geometry, independent constrained solve, zero sum, linearity, zeros. NOT proved "
+        "(numerical clauses, checked per run only): '(n-2)/(n-1) theta within 3 %' and 'correlation >= 0.9 with analytic Young-Laplace pressures'.",
+   design_ref="DESIGN.md §7 C04",
+   technique="Lean 4 theorems over Rat model of curvature ingredients, pressure rows and constrained LS certificate + differential check",
+   note=BASE_NOTE + " x**1.5, sqrt and numpy.linalg.inv are trusted/external; the least-squares clauses are asserted when the interfaces link all cells (the property's premise)."),
+ "C10": dict(
+   category="proof",
+   text="The ForSys object is modelled as a state machine over operation sequences with abstract pure kernels. Theorems for every sequence: an "
+        "operation on one frame leaves all other frames and their stores untouched; get_system_velocity_per_frame only replaces build options; "
+        "after solve_stress the i-th reported value belongs to the i-th internal interface (solver value or -1), equals the value stored on the "
+        "interface and each of its mesh edges, excluded and external interfaces carry 0; one solve is history independent; for any prefix and "
+        "suffix, what is reported for a frame is what the last solve produced from the build options in force, and equals a fresh object on "
+        "which only that build and that solve were called; pressures likewise from the tensions captured by the pressure matrix. Per run: random "
+        "histories (<=13 ops, all op kinds, 5 build and 7 solve option sets) compared with fresh objects on the minimal chain, and the Lean "
+        "machine driven with kernels tabulated from fresh objects compared with the history object's final state.",
+   design_ref="DESIGN.md §7 C10",
+   technique="Lean 4 induction over operation sequences of an abstract state machine + history-vs-fresh differential check",
+   note=BASE_NOTE + " Known finding: a failed fix_stress call corrupts the stored matrix (KF1b)."),
 }
 
 NOT_APPLICABLE = {
